@@ -17,6 +17,10 @@ CLAIMED = {
             "Static decision of DESIGN section 3 C17: in every multi-thread execute() only thread-local accumulators are written, shared arrays only in finish() (serialised by the executor, C33); "
             "each accumulator merged is zeroed in initialize() of the same mode; the non-thread-safe task is always paired with a one-thread executor; dispatch counts and index mapping. "
             "Holds for every schedule/thread count; floating-point summation order and user calcForce bodies are not decided."),
+    "C16": ("STAGE coherence of allocation sites vs cache fillers (inlining depth 3), POSONLY, explicit-invalidation MUSTCALL, validity-FLAG path rules over Simbody/src",
+            "Static decision of the stale-cache clauses of DESIGN section 3 C16: every cache filler reads only variables that invalidate its depends-on stage (or are explicitly invalidated / never written); "
+            "position-cached forces read nothing later than Position; Gravity's explicit invalidation pairing; cachedForcesAreValid and FunctionBased manual flags are reset/set on all paths. "
+            "Holds for every realization history since every computed result lives in such a cache; numerical equality of two histories and matter-subsystem reads through SBStateDigest are not decided."),
 }
 NA = {
  "C01": "numerical identity between O(n) recursions; no clause is visible in the shape of the code",
